@@ -486,17 +486,49 @@ def _x8_points(run: Run) -> None:
                     return bool(names & {"Sized", "Sequence", "Iterable", "list", "tuple", "Collection"})
             return NotImplemented
 
+    init = next((f_ for f_ in pcls.body if isinstance(f_, ast.FunctionDef) and f_.name == "__init__"), None)
+    run.require(init is not None, "AppliedPoint.__init__ not found")
+    flat = ast.Module(body=[x for x in pm.tree.body if not isinstance(x, ast.ClassDef)] + [x for x in pcls.body if isinstance(x, ast.FunctionDef)], type_ignores=[])
+    if prep is None:
+        prep = init
+
+    class _Self:
+
+        def __init__(self):
+            self.attrs = {}
+
+    _R0 = R
+
+    class R(_R0):  # noqa: F811 - the same reader, with the object under construction
+
+        def store_attr(self, base, attr, value, n):
+            if isinstance(base, _Self):
+                base.attrs[attr] = value
+                return True
+            return super().store_attr(base, attr, value, n)
+
+        def hook_attr(self, base, attr, n):
+            if isinstance(base, _Self) and attr in base.attrs:
+                return base.attrs[attr]
+            return super().hook_attr(base, attr, n)
+
+        def hook_call(self, n, env, fns):
+            f_ = dotted(n.func) or ""
+            if f_ == "super().__init__" or (isinstance(n.func, ast.Attribute) and n.func.attr == "__init__" and isinstance(n.func.value, ast.Call) and dotted(n.func.value.func) == "super"):
+                return None
+            return super().hook_call(n, env, fns)
+
     from fractions import Fraction as _Fr
     for tag in "CYS":
         for label, coords in (("generic", [var("g0"), var("g1"), var("g2")]), ("negative numbers", [num(_Fr(-1, 2)), num(-2), num(_Fr(-3, 4))]),
                               ("mixed", [num(2), num(_Fr(-1, 3)), var("g2")])):
             run.ob("X8", f"{NAMES[tag]}:{label}")
-            rd = R(pm.tree, "points/__init__.py", depth_limit=6)
+            rd = R(flat, "points/__init__.py", depth_limit=6)
+            me = _Self()
             try:
-                if prep is not None:
-                    got = rd.call("_prepare", [list(coords), _XSys(tag)])
-                else:
-                    raise AnalysisError("C15/X8: _prepare not found (the preparation of coordinates moved: re-derive the rule)")
+                # the constructor itself, whatever helper it leaves the preparation to: what matters is what ends up in self._coordinates
+                rd.call("__init__", [me, list(coords), _XSys(tag)])
+                got = me.attrs.get("_coordinates", me.attrs.get("coordinates"))
             except Raised as r_:
                 run.violate("X8", f"{PTS}:_prepare:raises", pm, pm.tree, f"preparing the coordinates {label} of a {NAMES[tag]} point raises {r_.exc}")
                 continue
